@@ -348,7 +348,7 @@ package silence
 // So pending and active silences (expiry = end + retention > now) survive and expired ones disappear after retention.
 //@ spec gcDue(ms *pb.MeshSilence, n time.Time) bool = ms.ExpiresAt == nil || tsT(ms.ExpiresAt) == 0 || tsT(ms.ExpiresAt) <= n
 //@ func (*Silences).GC
-//@   props C12 C02
+//@   props C12 C02 C09
 //@   ensures [monitor-lock-released] count("Mutex).Lock") == count("Mutex).Unlock") && count("Mutex).Lock") == 1
 //@   requires s != nil && storeInv(s) && s.metrics != nil && metricsOK(s) && s.metrics.gcDuration != nil && s.metrics.gcErrorsTotal != nil
 //@   ensures [only-expired] let n = ret("nowUTC") in forall k string :: old(k in s.st) && !(k in s.st) ==> old(gcDue(s.st[k], n))
